@@ -101,7 +101,36 @@ CLAIM = {
             'on the child; the model says a copy is the same value) + oracle (child = parent, independent both ways, '
             'round trip of the child). R14 counts (applies): 300 receive antennas (MRC), 257 transmit antennas (MRT), '
             '258 x 2 (Alamouti, 300 code words), 258 x 3 (Blast), in thorough also SVD / GMD 257 x 3 and a '
-            '65537-antenna MRC: correspondence (<= 300) + oracles; the theorems have no size bound.',
+            '65537-antenna MRC: correspondence (<= 300) + oracles; the theorems have no size bound. R15 close-but-distinct '
+            'values (applies: `noise_var > 0` decides MMSE / ZF, `>= 0.0` guards, gmd compares singular values with their '
+            'geometric mean and counts `S >= tol`, SVD divides by S, both setters): theorems '
+            'setter_takes_effect_for_every_new_value, channel_setter_takes_effect_for_every_new_value, '
+            'close_channels_give_distinct_objects (no tolerance anywhere in the model: the stored value is the value handed '
+            'over), filter_decision_is_exact (every positive noise variance, however small, selects what solve returned for '
+            'that very value), mmse_filter_separates_noise_variances (two different noise variances never share an MMSE '
+            'filter for a non-zero channel) and zf_filter_is_not_an_mmse_filter (a negligible noise variance is not zero); '
+            'oracle `close` on ONE object per scheme: noise variances 4e-12 / 4e-13 / 2e-15 / 0 with a channel of path-loss '
+            'scale, 1e-9 vs 1.0000001e-9, relative 1e-6, 2.4e9 vs 2.4e9 + 2e4, adjacent doubles, beyond the 12th decimal; '
+            'channels below 1e-8 (all `allclose` to each other), differing by 8e-6 relative, by one ulp, by 1e-13; singular '
+            'values 1 + 2e-7 / 1 / 1 - 3e-7, two clusters, tiny, adjacent (gmd function, SVD and GMD schemes): each value gives '
+            'the defining equation of the filter decode() applies / the SINR of its definition / the round trip / the gmd '
+            'contract for THAT value, and is read back bit for bit; the same sequences as histories in the correspondence, '
+            'where read-back of channel and noise variance is now compared exactly and the kernel called (solve vs pinv) must '
+            'be the one the exact test selects. R16 argument identity and buffer reuse (applies): Model/C04Buf.lean models the '
+            'caller with ONE preallocated channel array against the code as it is (set_channel_matrix keeps the array object) '
+            'and against value semantics; theorems refilled_buffer_equals_fresh_object (handing the array over again after '
+            'every refill makes the two indistinguishable), last_handed_over_contents_win, and the negative witness '
+            'channel_kept_by_reference_fails; correspondence: random caller programs (refill / set(buf) / set(fresh) / '
+            'observe through decode) on real objects vs both machines (driver op `buf`), and seeded + Monte Carlo loop '
+            'histories whose every array reaches the object through ONE refilled buffer per role; oracle `reuse`: 2-4 rounds '
+            'on one object driven ALONE (an identity-keyed memo is not refreshed by the reference computation), references '
+            'from fresh objects afterwards, earlier results / buffers unchanged, no result aliasing a buffer; static and '
+            'module functions (ZF / MMSE filter, SINR functions, gmd) with refilled arguments; one array in two roles (channel '
+            '= transmit data, = received data, encoded block as received data, channel = precoder = filter, U = V^H of gmd); '
+            'argument modified right after the call. KNOWN FINDING (genuine, not repaired in this round): '
+            'set_channel_matrix / the constructors keep the caller\'s array, so refilling it without handing it over again '
+            'changes the object (C04:set_channel_matrix:keeps-the-callers-array; one-line repair np.array(channel); a library '
+            'that copies is accepted by the buffer correspondence as value semantics).',
 }
 
 RTOL = 1e-9
